@@ -24,9 +24,14 @@ FUNCTIONS = [
     "jsonargparse._core.ArgumentParser.parse_args/parse_string/parse_path/parse_env/parse_object/_load_config_parser_mode/error/get_defaults",
     "jsonargparse._actions.ActionConfigFile.apply_config",
     "jsonargparse._typehints.ActionTypeHint._check_type",
+    "jsonargparse._loaders_dumpers.load_basic (E-AST: symbolic execution of its source AST into z3 string constraints)",
 ]
 
 ENTRY_POINTS = ["parse_string", "parse_path", "cfg_text", "cfg_file", "env_cfg", "default_config_file", "option_value_any", "option_value_list", "env_var"]
+# the same entry points fed a *whole* text (the value is the entire config / option value, which is what the
+# hand-written pre-loader load_basic sees)
+WHOLE_ENTRY_POINTS = ["whole:parse_string", "whole:parse_path", "whole:cfg_text", "whole:env_cfg", "whole:default_config_file", "whole:option_value_any",
+                      "whole:option_value_list", "whole:env_var_list", "whole:group_option"]
 
 
 def _parser(exit_on_error, default_files=None):
@@ -39,6 +44,9 @@ def _parser(exit_on_error, default_files=None):
     p.add_argument("--a", type=Any, default=None)
     p.add_argument("--l", type=List[int], default=[])
     p.add_argument("--s", type=str, default="")
+    from ..fixtures import Inner
+
+    p.add_argument("--g", type=Inner, default=Inner())
     return p
 
 
@@ -71,10 +79,12 @@ def _call_entry(entry, text_value, exit_on_error, inject=None):
     d = tempfile.mkdtemp(prefix="c03_")
     try:
         doc = f"a: {text_value}\n"
+        if entry.startswith("whole:"):
+            doc = text_value
         path = os.path.join(d, "c.yaml")
         with open(path, "w") as f:
             f.write(doc)
-        dflt = [path] if entry == "default_config_file" else None
+        dflt = [path] if entry.endswith("default_config_file") else None
 
         def run():
             p = _parser(exit_on_error, dflt)
@@ -96,6 +106,24 @@ def _call_entry(entry, text_value, exit_on_error, inject=None):
                 return p.parse_args([f"--l=[{text_value}]"])
             if entry == "env_var":
                 return p.parse_env({"APP_L": f"[{text_value}]"})
+            if entry == "whole:parse_string":
+                return p.parse_string(doc)
+            if entry == "whole:parse_path":
+                return p.parse_path(path)
+            if entry == "whole:cfg_text":
+                return p.parse_args(["--cfg", doc])
+            if entry == "whole:env_cfg":
+                return p.parse_env({"APP_CFG": doc})
+            if entry == "whole:default_config_file":
+                return p.parse_args([])
+            if entry == "whole:option_value_any":
+                return p.parse_args([f"--a={text_value}"])
+            if entry == "whole:option_value_list":
+                return p.parse_args([f"--l={text_value}"])
+            if entry == "whole:env_var_list":
+                return p.parse_env({"APP_L": text_value})
+            if entry == "whole:group_option":
+                return p.parse_args([f"--g={text_value}"])
             raise RuntimeError(entry)
 
         if inject is None:
@@ -279,6 +307,54 @@ def main(rep, tier):
                 elif cls not in reported:
                     reported.add(cls)
                     rep.violation(f"loader-failing scalar {w!r} escapes: {res.get('detail')}", dict(module="props.c03", func="replay_witness", payload=payload))
+    # ---- E-AST: the hand-written pre-loader load_basic, executed symbolically from its source
+    from .. import ast2smt as A
+    import jsonargparse._loaders_dumpers as ld
+
+    n_, bad_ = A.validate_builtin_models(30 if tier == "quick" else 100)
+    if bad_:
+        raise Inconclusive(f"model of int()/float() acceptance disagrees with the builtins: {bad_[:4]}")
+    se = A.SymExec(ld.load_basic)
+    outs = se.run()
+    corpus = ["true", " false ", "null", "12", "-3", "1.5", "1e5", "-1e-5", "x", "", "\u00b2", "\u0661\u0662", "1.2.3", "--1", "e", ".", "1e", "-", "1-1", "\u0663.\u0665",
+              "-\u00b3", "1_0", "+1", "1.", ".5", "1e+5", "1E5", "-.5", "0x1", " ", "\t7\n", "-", "--", "1-", "e1", "1.e1", "truex", "NULL", "9" * 20]
+    mism = []
+    for w in corpus:
+        k = A.concrete_kind(ld.load_basic, w)
+        e = A.encoded_kinds(se, outs, w)
+        k = "return:name:not_loaded" if k.startswith("return:name") else k
+        if e != {k}:
+            mism.append((w, k, sorted(e)))
+    rep.extra["ast_encoding"] = dict(function="jsonargparse._loaders_dumpers.load_basic", outcomes=sorted({o.kind for o in outs}), paths=len(outs),
+                                     validation_corpus=len(corpus), builtin_model_words=n_, alphabet="ASCII + " + repr(A.representatives()))
+    if mism:
+        raise Inconclusive(f"AST encoding of load_basic disagrees with the real function on {mism[:4]}")
+    raising = [o for o in outs if o.kind.startswith("raise:")]
+    if not raising:
+        rep.add_query("load_basic: no path of the encoded function ends in an escaping exception (every int()/float() call sits inside try/except ValueError)", "unsat", 0.0, solver="ast-paths")
+        rep.nontrivial += 1
+    else:
+        block = []
+        for k in range(6):
+            r, m = q.ask(f"E{k} load_basic raises on s (|s|<=32, alphabet ASCII+representatives)", z3.Length(se.param) <= 32, se.domain, z3.Or(*[o.cond() for o in raising]), *block)
+            if r == "unsat":
+                rep.nontrivial += 1
+                break
+            w = rx.decode(m.eval(se.param, model_completion=True))
+            block.append(se.param != z3.StringVal(w))
+            if A.concrete_kind(ld.load_basic, w).startswith("return"):
+                continue  # spurious (environment model too coarse); blocked
+            payload = dict(value=w, entries=WHOLE_ENTRY_POINTS)
+            res = run_native("props.c03", "replay_witness", payload)
+            rep.samples.append(dict(load_basic_witness=w, leaks=res.get("reproduced")))
+            if res.get("reproduced"):
+                cls = res.get("cls")
+                known = rep.match_finding(cls, dict(value=w, detail=res.get("detail", "")))
+                if known:
+                    rep.known_finding(known, f"witness {w!r}")
+                elif cls not in reported:
+                    reported.add(cls)
+                    rep.violation(f"load_basic raises on {w!r} and it escapes: {res.get('detail')}", dict(module="props.c03", func="replay_witness", payload=payload))
     # fixed battery
     for case in _extra_cases():
         res = run_native("props.c03", "replay_extra", dict(case=case))
